@@ -449,6 +449,12 @@ class DiffXWriter(object):
         section = self._build_section(section_level, section_name)
         self._validate_section(section)
 
+        # Write the header before touching any state, so that a failure to
+        # write it leaves the writer as it was.
+        self._write_section_header(section=section,
+                                   encoding=encoding,
+                                   **options)
+
         # If we're writing a new section at the current level, or moving up
         # levels, we'll need to pop the appropriate number of sections off
         # the stack.
@@ -458,10 +464,6 @@ class DiffXWriter(object):
         self._stack.append({
             'encoding': encoding or self._cur_encoding,
         })
-
-        self._write_section_header(section=section,
-                                   encoding=encoding,
-                                   **options)
 
     def _new_content_section(self,
                              section_name,
@@ -553,14 +555,14 @@ class DiffXWriter(object):
             if _value is not None
         )
 
-        fp = self.fp
-        fp.write(b'#%s:' % section.encode('ascii'))
+        # Build the whole header before writing anything, so that a header
+        # that can't be encoded doesn't end up partially written.
+        header = b'#%s:' % section.encode('ascii')
 
         if options_str:
-            fp.write(b' ')
-            fp.write(options_str.encode('ascii'))
+            header += b' ' + options_str.encode('ascii')
 
-        fp.write(b'\n')
+        self.fp.write(header + b'\n')
 
         self._prev_section = section
 
